@@ -197,11 +197,11 @@ fn feature(r: &Re) -> &'static str {
 }
 
 fn max_size(t: Tier) -> usize {
-    t.pick(4, 6)
+    t.pick(4, 7)
 }
 
 fn deep_size(t: Tier) -> usize {
-    t.pick(7, 8)
+    t.pick(7, 9)
 }
 
 fn spec(t: Tier) -> Spec {
